@@ -48,6 +48,7 @@ func c04eRDB() []byte {
 
 // c04eSync runs one real Sync() on `tgt` until the stream has been consumed and things are quiet.
 func c04eSync(t *testing.T, c c04eCase, tgt *mredis.Server) (abort bool, psyncs []msource.Psync, acks []int64) {
+	defer ev.Watch(fmt.Sprintf("end-to-end Sync() of stream %v (cut %d)", c.Names, c.Cut), 150*time.Second, c)()
 	syncConfig{TargetDB: -1, Resume: true, SenderCount: c.Sender, SenderSize: 1 << 20}.apply()
 	conf.Options.SourceType, conf.Options.TargetType = "standalone", "standalone"
 	conf.Options.SourceAddressList, conf.Options.TargetAddressList = []string{"src:6379"}, []string{"tgt:6379"}
